@@ -3,6 +3,9 @@ package mempool
 import (
 	"bytes"
 	"math"
+	"time"
+
+	"github.com/aergoio/aergo/v2/internal/enc/proto"
 
 	"github.com/aergoio/aergo/v2/types"
 	vf "github.com/aergoio/aergo/v2/zzvf"
@@ -95,6 +98,9 @@ func vfC13BuildPool(named bool) (*MemPool, []types.Transaction) {
 		}
 		base := &types.State{Nonce: vf.U64("baseNonce"), Balance: vf.BigBytes("baseBalance")}
 		list := make([]types.Transaction, n)
+		if vfC13Sized >= 0 {
+			vfC13Sized = 0
+		}
 		for i := range list {
 			if named && a == 0 && i == 0 {
 				list[i] = vfC13NamedTx()
@@ -254,12 +260,14 @@ func VF_C13_c_remove() {
 				listed += vfCount(tl.list, victim)
 			}
 		}
-		vf.AssertKnown(listed == 0, ob, "F13-removeTx-name-sender", isNamed)
 		l, _ := mp.Size()
 		vf.Assert(l == snap.length-1, ob)
 		if !isNamed {
 			vfC13CheckPool(mp, ob)
 		}
+		vf.Observe("listed", listed)
+		// last (the engine continues under the asserted condition): the transaction is gone from its list
+		vf.AssertKnown(listed == 0, ob, "F13-removeTx-name-sender", isNamed)
 	}
 	vf.Observe("err", err != nil)
 	vf.Observe("length", mp.length)
@@ -280,6 +288,100 @@ func VF_C13_c_block() {
 			vf.Assert(tl.base.Nonce == nonce[vfC13AccKey(a)], ob)
 			for _, tx := range tl.list {
 				vf.Assert(vfNonce(tx) > nonce[vfC13AccKey(a)], ob)
+			}
+		}
+	}
+	vfC13CheckPool(mp, ob)
+	vf.Observe("length", mp.length)
+	vf.Observe("orphan", mp.orphan)
+}
+
+// C13.c (get): what MemPool.get hands to a block producer under an ARBITRARY block-body size limit: per account a
+// prefix of the gap-free run (nonces base+1, base+2, ... in order, nothing parked behind a gap, nothing skipped when
+// the size cut-off is hit in the middle of a run), no transaction twice, total wire size within the limit, and
+// everything that is ready when the limit allows it. Map iteration order of the accounts: all orders.
+func VF_C13_c_get() {
+	const ob = "C13.c.get"
+	vfC13Sized = 0
+	mp, all := vfC13BuildPool(false)
+	limit := vf.U32("maxBlockBodySize")
+	txs, err := mp.get(limit)
+	vf.Reach(ob)
+	vf.Assert(err == nil, ob)
+	size, readyTotal, readySize := 0, 0, 0
+	for a := range vfC13Acc {
+		tl := vfC13List2(mp, a)
+		if tl == nil {
+			continue
+		}
+		idx := 0
+		for _, t := range txs {
+			if vfCount(tl.list, t) == 0 {
+				continue
+			}
+			// the k-th transaction returned for this account is the k-th of its gap-free run
+			vf.Assert(idx < tl.ready, ob)
+			if idx < tl.ready {
+				vf.Assert(t == tl.list[idx], ob)
+				vf.Assert(vfNonce(t) == tl.base.Nonce+uint64(idx)+1, ob)
+			}
+			idx++
+		}
+		readyTotal += tl.ready
+		for i := 0; i < tl.ready; i++ {
+			readySize += proto.Size(tl.list[i].GetTx())
+		}
+	}
+	for _, t := range txs {
+		vf.Assert(vfCount(all, t) == 1, ob) // only pooled transactions
+		vf.Assert(vfCount(txs, t) == 1, ob) // none twice
+		size += proto.Size(t.GetTx())
+	}
+	vf.Assert(uint64(size) <= uint64(limit), ob)
+	// nothing is withheld when everything that is ready fits
+	vf.Assert(vf.Implies(uint64(readySize) <= uint64(limit), len(txs) == readyTotal), ob)
+	vfC13CheckPool(mp, ob) // get does not modify the pool
+	vf.Observe("n", len(txs))
+	vf.Observe("size", size)
+}
+
+// C13.c (evict): MemPool.evictTransactions drops every account list that has not been modified within the evict
+// period, together with its cache entries and counters (also lists with transactions parked behind a nonce gap), and
+// leaves the other lists alone.
+func VF_C13_c_evict() {
+	const ob = "C13.c.evict"
+	mp, _ := vfC13BuildPool(false)
+	// a stale list: never modified (zero time); a fresh one: modified "in the future" (year 2106) so that the verdict
+	// does not depend on the clock. evictPeriod = 0; the 4 ms work timer is not modelled (never fires).
+	evictPeriod = 0
+	evictWorkTimeout = time.Hour
+	var stale [2]bool
+	for a := range vfC13Acc {
+		if tl := vfC13List2(mp, a); tl != nil {
+			if vf.Choice("stale", 2) == 1 {
+				stale[a] = true
+			} else {
+				tl.lastTime = time.Unix(1<<32, 0)
+			}
+		}
+	}
+	snap := vfC13TakeSnap(mp)
+	mp.evictTransactions()
+	vf.Assume(time.Now().Before(time.Unix(1<<32, 0))) // the wall clock is before 2106
+	vf.Reach(ob)
+	for a := range vfC13Acc {
+		tl := vfC13List2(mp, a)
+		if stale[a] {
+			vf.Assert(tl == nil, ob)
+			for _, tx := range snap.lists[a] {
+				_, ok := mp.cache.Load(types.ToTxID(tx.GetHash()))
+				vf.Assert(!ok, ob)
+			}
+		} else if len(snap.lists[a]) > 0 {
+			vf.Assert(tl != nil, ob)
+			if tl != nil {
+				vf.Assert(vfSameList(tl.list, snap.lists[a]), ob)
+				vf.Assert(tl.ready == snap.ready[a], ob)
 			}
 		}
 	}
